@@ -33,6 +33,8 @@ package signedexchange
 //@   props C08 C19
 //@   may_panic
 //@   requires enc != nil && enc.w != nil && !failed(enc.w)
+//@   assert[method-entry-is-the-request-method] before "mes = encodeHeaders(mes, e.RequestHeaders)" :: len(mes) >= 1 && content(mes[0].keyBuf) == cat(cat(emptyBytes(), cborHead(64, uint64(len(keyMethod)))), bytes(keyMethod)) && content(mes[0].valueBuf) == cat(cat(emptyBytes(), cborHead(64, uint64(len(e.RequestMethod)))), bytes(e.RequestMethod))
+//@   assert[url-entry-only-in-b1] before "mes = encodeHeaders(mes, e.RequestHeaders)" :: len(mes) == (e.Version == version.Version1b1 ? 2 : 1) && (e.Version == version.Version1b1 ==> content(mes[1].keyBuf) == cat(cat(emptyBytes(), cborHead(64, uint64(len(keyURL)))), bytes(keyURL)) && content(mes[1].valueBuf) == cat(cat(emptyBytes(), cborHead(64, uint64(len(e.RequestURI)))), bytes(e.RequestURI)))
 //@   ensures[write-failure-surfaces] failed(enc.w) ==> result != nil
 //@   ensures accepted(enc.w) >= old(accepted(enc.w)) && accepted(enc.w) - wrapped(enc.w) == old(accepted(enc.w) - wrapped(enc.w))
 //@   assigns accepted(enc.w), failed(enc.w), content(enc.w), wrapped(enc.w)
@@ -40,6 +42,7 @@ package signedexchange
 //@ func (*Exchange).encodeResponseMap
 //@   props C08 C19
 //@   requires enc != nil && enc.w != nil && !failed(enc.w)
+//@   assert[status-entry-is-the-response-status] before "mes = encodeHeaders(mes, e.ResponseHeaders)" :: len(mes) == 1 && content(mes[0].keyBuf) == cat(cat(emptyBytes(), cborHead(64, uint64(len(keyStatus)))), bytes(keyStatus)) && content(mes[0].valueBuf) == cat(cat(emptyBytes(), cborHead(64, uint64(len(strconv.Itoa(e.ResponseStatus))))), bytes(strconv.Itoa(e.ResponseStatus)))
 //@   ensures[write-failure-surfaces] failed(enc.w) ==> result != nil
 //@   ensures accepted(enc.w) >= old(accepted(enc.w)) && accepted(enc.w) - wrapped(enc.w) == old(accepted(enc.w) - wrapped(enc.w))
 //@   assigns accepted(enc.w), failed(enc.w), content(enc.w), wrapped(enc.w)
@@ -48,6 +51,8 @@ package signedexchange
 //@   props C08 C19
 //@   may_panic
 //@   requires enc != nil && enc.w != nil && !failed(enc.w)
+//@   assert[b1-b2-open-a-two-element-array] before "if err := e.encodeRequestMap(enc)" :: (e.Version == version.Version1b1 || e.Version == version.Version1b2) && content(enc.w) == cat(old(content(enc.w)), cborHead(128, 2))
+//@   assert[b3-has-only-the-response-map] before "if err := e.encodeResponseMap(enc)" :: !(e.Version == version.Version1b1 || e.Version == version.Version1b2) ==> content(enc.w) == old(content(enc.w))
 //@   ensures[write-failure-surfaces] failed(enc.w) ==> result != nil
 //@   ensures accepted(enc.w) >= old(accepted(enc.w)) && accepted(enc.w) - wrapped(enc.w) == old(accepted(enc.w) - wrapped(enc.w))
 //@   assigns accepted(enc.w), failed(enc.w), content(enc.w), wrapped(enc.w)
